@@ -366,3 +366,45 @@ Theorem C06_summaries_are_source :
                  In h (sum_keys p nh nc)).
 Proof. exact PaymentSummariesGenProofs.gen_summaries_are_model. Qed.
 Print Assumptions C06_summaries_are_source.
+
+(** The payment-record part of the heartbeat is the source's.  NodeState::prune_forwarded_payments
+    (whole body, translated in state-passing style: `let payments = &mut self.payments;`, the shared
+    borrows of the two invoice maps, `payments.retain(|hash, payment| { .. })` with a block closure
+    that calls is_forwarded_payment_prunable and raises the captured flag `modified` - map_retain_st
+    of Base/Rust.v) never panics on a well-formed state whose records fit u64; it returns
+    "some record was dropped", leaves both invoice maps alone, and the state it leaves abstracts to:
+    [known] and [pre] restricted to the hashes that are NOT dropped, [led] and [inv] unchanged (a
+    dropped record carried nothing on any channel).  Dropped means the model's [prunable] AND no
+    issued invoice for the hash ([pruned]; the model does not have issued invoices, as in
+    C06_prune_is_source).  Last conjunct: when no prunable record has an issued invoice this is
+    exactly the model's PHeartbeat step.  The entries are visited in the order of the association list
+    that represents the map; the state is universally quantified, so every visiting order of the
+    hash map is covered. *)
+Theorem C06_prune_step_is_source :
+  forall (nch : nat) (mf mp : N) (prof : profile) (chs : N -> pchan) (ns : NodePaymentsGen.NodeState),
+    NodePaymentsGenProofs.wf_node nch ns ->
+    NoDup (Rust.map_keys (NodePaymentsGen.NodeState_payments ns)) ->
+    (forall h p, Rust.map_get (NodePaymentsGen.NodeState_payments ns) h = Some p ->
+                 sum_N (Rust.map_values (NodePaymentsGen.RoutedPayment_incoming p)) <= U64MAX /\
+                 sum_N (Rust.map_values (NodePaymentsGen.RoutedPayment_outgoing p)) <= U64MAX) ->
+    let s := NodePaymentsGenProofs.abs_node chs ns in
+    let dropped := fun h => prunable nch s h
+                            && Rust.is_none_of (Rust.map_get (NodePaymentsGen.NodeState_issued_invoices ns) h) in
+    exists ns',
+      NodePaymentsGen.gen_NodeState_prune_forwarded_payments prof ns =
+        Val (Rust.OkR (ns', existsb dropped (Rust.map_keys (NodePaymentsGen.NodeState_payments ns)))) /\
+      (forall x, known (NodePaymentsGenProofs.abs_node chs ns') x = known s x && negb (dropped x)) /\
+      (forall x, pre (NodePaymentsGenProofs.abs_node chs ns') x = pre s x && negb (dropped x)) /\
+      (forall x c, led (NodePaymentsGenProofs.abs_node chs ns') x c = led s x c) /\
+      (forall x, inv (NodePaymentsGenProofs.abs_node chs ns') x = inv s x) /\
+      NodePaymentsGen.NodeState_invoices ns' = NodePaymentsGen.NodeState_invoices ns /\
+      NodePaymentsGen.NodeState_issued_invoices ns' = NodePaymentsGen.NodeState_issued_invoices ns /\
+      ((forall x, known s x = true -> prunable nch s x = true ->
+                  Rust.map_get (NodePaymentsGen.NodeState_issued_invoices ns) x = None) ->
+       let s' := fst (pstep nch mf mp s PHeartbeat) in
+       (forall x, known (NodePaymentsGenProofs.abs_node chs ns') x = known s' x) /\
+       (forall x, pre (NodePaymentsGenProofs.abs_node chs ns') x = pre s' x) /\
+       (forall x c, led (NodePaymentsGenProofs.abs_node chs ns') x c = led s' x c) /\
+       (forall x, inv (NodePaymentsGenProofs.abs_node chs ns') x = inv s' x)).
+Proof. exact NodePaymentsGenProofs.gen_prune_step_is_model. Qed.
+Print Assumptions C06_prune_step_is_source.
